@@ -228,6 +228,29 @@ def boxPos (b : Box) (inGrid : Prop) [Decidable inGrid] (i j k : Nat) : Option N
     some ((i - b.oi) + b.ni * ((j - b.oj) + (k - b.ok) * b.nj))
   else none
 
+/-! ### the loops as written (shown equal to the closed forms above in `Proofs/`) -/
+
+/-- `FieldProps::region_index` as written: one pass over the global cells with a running
+active index -/
+def regionIndexLoop (region : Arr Int) (r : Int) : List Bool → Nat → Nat → List Idx
+  | [], _, _ => []
+  | false :: as, g, a => regionIndexLoop region r as (g + 1) a
+  | true :: as, g, a =>
+    (if (cellAt region a).v = r then [⟨g, a, g⟩] else []) ++ regionIndexLoop region r as (g + 1) (a + 1)
+
+/-- `Fieldprops::compress(data, active_map)` (one value per cell) as written: an in-place pass
+that moves every kept element `shift` places down, then `resize` -/
+def compressLoop {β : Type} : List Bool → Nat → Nat → List β → List β
+  | [], _, shift, data => data.take (data.length - shift)
+  | true :: as, g, shift, data =>
+    compressLoop as (g + 1) shift
+      (if shift > 0 then
+        match data[g]? with
+        | some x => data.set (g - shift) x
+        | none => data
+       else data)
+  | false :: as, g, shift, data => compressLoop as (g + 1) (shift + 1) data
+
 /-- Specification side: the row-major position inside the box of global cell `g`, if it
 lies in the box. -/
 def boxSel (D : Dims) (b : Box) (g : Nat) : Option Nat :=
